@@ -236,3 +236,23 @@ func (t *hostTarget) Canary() string {
 	}
 	return ""
 }
+
+// FixedPlans: every prefix / deletion / length delta of every message payload (correctly framed),
+// and of the framed RuntimeInfoResponse itself (the length prefix then lies).
+func (t *hostTarget) FixedPlans(rng *rand.Rand) []fixedPlan {
+	var out []fixedPlan
+	for i, s := range t.seeds {
+		mode := "mode=guest"
+		if i == 0 {
+			mode = "mode=host"
+		}
+		out = append(out, newFixedPlan(rng, s, mode, "", frame))
+	}
+	framed := &Seed{Name: "framed RuntimeInfoResponse", Data: frame(t.info), LenFields: []LenField{{Off: 0, Width: 4, BE: true}}}
+	out = append(out, newFixedPlan(rng, framed, "mode=host", ":frame", nil))
+	if len(t.seeds) > 1 {
+		f2 := &Seed{Name: "framed request", Data: frame(t.seeds[1].Data), LenFields: []LenField{{Off: 0, Width: 4, BE: true}}}
+		out = append(out, newFixedPlan(rng, f2, "mode=guest", ":frame", nil))
+	}
+	return out
+}
